@@ -101,6 +101,7 @@ func zzC05Compact(spec string) {
 		zzAssert(p.EpicID == t.EpicID && p.IsEpic == t.IsEpic && p.UUID == t.UUID, "C05/compact: epic, kind and uuid preserved")
 		zzAssert(p.CreatedAt.Equal(t.CreatedAt) && p.UpdatedAt.Equal(t.UpdatedAt), "C05/compact: created/updated timestamps preserved")
 		zzAssert(zzSameResults(p.Results, t.Results), "C05/compact: results preserved in order with their evidence")
+		zzAssert(zzSameResults(p.Results, t.Results), "C20/compact: results survive compaction - none dropped, duplicated, reordered or altered")
 		zzAssert(isReady(p, g2) == isReady(t, g) && isBlocked(p, g2) == isBlocked(t, g), "C05/compact: ready/blocked flags preserved")
 	}
 	for k := range g2.Tasks {
